@@ -70,6 +70,11 @@ package store
 //@   requires s.err != types.ErrKeyExists
 //@   unreachable return#1: the key is well-formed by precondition, so computing its index key cannot fail
 //@   unreachable return#9: FreeList.Put never fails
+// The index stores a key's distinguishing prefix with a one-byte length. This obligation FAILS on
+// the code as it is (finding F14, open: nothing bounds the index key length, and two keys that
+// share 256 bytes or more after the bucket prefix corrupt the bucket's record list - the store
+// panics); it is listed in /verif/KNOWN_FINDINGS.txt and reproduced by /verif/findings/f14_test.go.
+//@   assert at before call index.Index.Put#0: @C01-stored-prefix-fits-one-byte {C01} len($a1) - s.index.sizeBits / 8 < 256
 //@   modifies s.index.$Ein, s.index.$Eblk, s.index.Primary.$Rin, s.index.Primary.$Rkey, s.index.Primary.$Rval, s.index.Primary.$Rused, s.freelist.$F, s.flushNotice, chan(s.flushNotice), s.index.$pending, s.index.Primary.$pending, s.freelist.$pending
 //@   ensures @exists err == types.ErrKeyExists ==> s.immutable && old(has(s, IK())) && sameview(s) && FL(s) == old(FL(s))
 //@   ensures @put err == nil ==> has(s, IK()) && val(s, IK()) == bytes(value)
